@@ -196,7 +196,7 @@ func genFrame(g *genCtx) {
 	nr := 600
 	maxBody := 300
 	if g.thorough() {
-		nr = 20000
+		nr = 60000
 	}
 	for i := 0; i < nr; i++ {
 		rr := rand.New(rand.NewSource(r.Int63()))
